@@ -742,6 +742,74 @@ func c18Run(c *core.Ctx) {
 			msg(c18Msg{Kind: "complete", PTI: byte(pti), Classmark: -1})
 		}
 	}
+	// sizes: one part of every content length 0..700 (thorough 0..2100) and around 2^10..2^16 (all nested 16-bit lengths
+	// derive from it; the largest still fit); counts: k parts / instructions / sublists / results / sub-results for
+	// k = 1..40 and around 64, 128, 256; equal values: same PLMN twice, same UPSC twice, identical parts
+	{
+		top := 700
+		if thorough {
+			top = 2100
+		}
+		var lens []int
+		for l := 0; l <= top; l++ {
+			lens = append(lens, l)
+		}
+		for k := 10; k <= 16; k++ {
+			for d := -8; d <= 2; d++ {
+				if v := 1<<k + d; v > top && v <= 65535-8 {
+					lens = append(lens, v)
+				}
+			}
+		}
+		for li, l := range lens {
+			if !c.Mine(li) {
+				continue
+			}
+			kind := "list"
+			if li%3 == 0 {
+				kind = "command"
+			}
+			msg(c18Msg{Kind: kind, PTI: 1, Subs: []uSub{{208, 93, []uIns{{Upsc: 9, Parts: []uPart{{1, l}}}}}}, Classmark: -1})
+			if l <= 300 {
+				msg(c18Msg{Kind: "list", Subs: []uSub{{208, 93, []uIns{{Upsc: 9, Parts: []uPart{{2, 3}, {1, l}}}, {Upsc: 10, Parts: []uPart{{1, l}}}}}}, Classmark: -1})
+			}
+		}
+		var counts []int
+		for k := 1; k <= 40; k++ {
+			counts = append(counts, k)
+		}
+		for _, b := range []int{64, 128, 256} {
+			counts = append(counts, b-1, b, b+1)
+		}
+		for ci, k := range counts {
+			if !c.Mine(ci + 7) {
+				continue
+			}
+			var parts []uPart
+			var inss []uIns
+			var subs []uSub
+			var ress []uRes
+			var subres []uSubRes
+			for j := 0; j < k; j++ {
+				parts = append(parts, uPart{byte(1 + j%4), 1 + j%3})
+				inss = append(inss, uIns{Upsc: uint16(j + 1), Parts: []uPart{{1, j % 3}}})
+				subs = append(subs, uSub{208 + j%700, 10 + j%80, []uIns{{Upsc: uint16(j), Parts: []uPart{{1, 1}}}}})
+				ress = append(ress, uRes{uint16(j + 1), uint16(j)})
+				subres = append(subres, uSubRes{208 + j%700, 10 + j%80, []uRes{{uint16(j), 1}}})
+			}
+			msg(c18Msg{Kind: "list", Subs: []uSub{{208, 93, []uIns{{Upsc: 1, Parts: parts}}}}, Classmark: -1})
+			msg(c18Msg{Kind: "list", Subs: []uSub{{208, 93, inss}}, Classmark: -1})
+			msg(c18Msg{Kind: "command", PTI: 3, Subs: subs, Classmark: 1})
+			msg(c18Msg{Kind: "result-list", SubRes: []uSubRes{{208, 93, ress}}, Classmark: -1})
+			msg(c18Msg{Kind: "reject", PTI: 3, SubRes: subres, Classmark: -1})
+		}
+		if c.Shard == 1%c.NShards {
+			same := []uIns{{Upsc: 7, Parts: []uPart{{1, 4}, {1, 4}}}, {Upsc: 7, Parts: []uPart{{1, 4}}}}
+			msg(c18Msg{Kind: "command", PTI: 1, Subs: []uSub{{208, 93, same}, {208, 93, same}}, Classmark: 0})
+			msg(c18Msg{Kind: "list", Subs: []uSub{{208, 93, same}, {208, 93, same}}, Classmark: -1, ReuseBuilder: true})
+			msg(c18Msg{Kind: "reject", PTI: 1, SubRes: []uSubRes{{208, 93, []uRes{{5, 5}, {5, 5}}}, {208, 93, []uRes{{5, 5}}}}, Classmark: -1})
+		}
+	}
 	resShapes := [][]uRes{{}, {{1, 1}}, {{0xFFFF, 0}, {2, 0xFFFF}}}
 	for _, r1 := range resShapes {
 		if !mine() {
@@ -971,7 +1039,7 @@ func init() {
 			if tier == "thorough" {
 				l = "7"
 			}
-			return "totality: every byte string of length <= " + l + " over a 12-value alphabet into the six parsers (delivery message, section-management list content, result content, sub-list contents, section contents, sub-result contents), all 256 message types, and the <=2-mutation neighbourhood of valid encodings of every message kind; round trip: command messages with 0..2 sublists x 0..2 instructions x 0..2 policy parts (content lengths 0,1,2,300) with and without classmark, complete with every PTI, reject with 0..2 sub-results x 0..2 results, nested lists alone, all built through the API only, lists serialised again after their part contents were replaced through the API, and lists built with one reused builder value for all parts; PLMN: every MCC 100..999 x every MNC 10..999. Oracle: no panic; encoded bytes equal a reference encoder (every length field = length of what follows, PLMN per TS 24.008 10.5.1.3 as produced by nasConvert.PlmnIDToNas); decode(encode(m)) yields the same structure. Histories: every truncation and every 12-value replacement of the valid encodings through its parser — alone, followed by a successful parse, and in pairs of truncations — followed by a probe of each message kind judged like a fresh round trip (results must not depend on earlier calls, in particular not on parses that stopped with an error). Serialiser hygiene on list / result-list cases: structure unchanged by MarshalBinary, second serialisation after the caller overwrote the first result gives the same octets, result survives serialising another list. Parser inputs sit in a guarded buffer (spare capacity, canaries) that must be unchanged. Container reuse: every truncation of four valid delivery messages (command with and without classmark, complete, reject) decoded into one container, optionally a complete / reject next, then each valid message — verdict, the body named by the message type and the re-encoding must equal those of a fresh container."
+			return "totality: every byte string of length <= " + l + " over a 12-value alphabet into the six parsers (delivery message, section-management list content, result content, sub-list contents, section contents, sub-result contents), all 256 message types, and the <=2-mutation neighbourhood of valid encodings of every message kind; round trip: command messages with 0..2 sublists x 0..2 instructions x 0..2 policy parts (content lengths 0,1,2,300) with and without classmark, complete with every PTI, reject with 0..2 sub-results x 0..2 results, nested lists alone, all built through the API only, lists serialised again after their part contents were replaced through the API, and lists built with one reused builder value for all parts; PLMN: every MCC 100..999 x every MNC 10..999. Oracle: no panic; encoded bytes equal a reference encoder (every length field = length of what follows, PLMN per TS 24.008 10.5.1.3 as produced by nasConvert.PlmnIDToNas); decode(encode(m)) yields the same structure. Sizes and counts: one policy part of every content length 0..700 (thorough 0..2100) and around 2^10..2^16; k parts / instructions / sublists / results / sub-results for k = 1..40 and around 64, 128, 256; equal PLMNs, UPSCs and parts. Histories: every truncation and every 12-value replacement of the valid encodings through its parser — alone, followed by a successful parse, and in pairs of truncations — followed by a probe of each message kind judged like a fresh round trip (results must not depend on earlier calls, in particular not on parses that stopped with an error). Serialiser hygiene on list / result-list cases: structure unchanged by MarshalBinary, second serialisation after the caller overwrote the first result gives the same octets, result survives serialising another list. Parser inputs sit in a guarded buffer (spare capacity, canaries) that must be unchanged. Container reuse: every truncation of four valid delivery messages (command with and without classmark, complete, reject) decoded into one container, optionally a complete / reject next, then each valid message — verdict, the body named by the message type and the re-encoding must equal those of a fresh container."
 		},
 		Assumptions: []string{"result causes are normalised to 'protocol error, unspecified' by the encoder itself"},
 		Finish:      finishDistinct("distinct by (parser, input octets) / message description / PLMN; non-trivial = raw inputs of at least three octets, messages with at least one sublist or sub-result, every PLMN"),
